@@ -44,8 +44,16 @@ func c05Prog(r *Rng, mode int) *Prog {
 		}
 		return out
 	}
+	var family []*Opt
+	if r.Chance(1, 8) {
+		// a large family of names sharing a prefix: the ambiguity error must list every one of them
+		for i := r.Range(17, 40); i > 0; i-- {
+			family = append(family, &Opt{ID: id, Kind: KBool, Name: fmt.Sprintf("zq%02d", i)})
+			id++
+		}
+	}
 	w := &Opt{ID: 0, Kind: KBool, Name: "w"}
-	root := &Cmd{Unknown: -1, HasFn: true, Opts: append([]*Opt{w}, mk(r.Range(2, 5))...)}
+	root := &Cmd{Unknown: -1, HasFn: true, Opts: append(append([]*Opt{w}, mk(r.Range(2, 5))...), family...)}
 	root.Cmds = []*Cmd{{Name: "cmd", Unknown: -1, HasFn: true, Opts: mk(r.Range(1, 4))}}
 	return &Prog{Mode: mode, Unknown: 0, Root: root}
 }
